@@ -289,7 +289,7 @@ def ref_eval(e, enums=None, floor=False):
 #   sizet     sizeof yields (signed) long
 # With no quirk it equals ref_eval on every defined expression (checked by the self test of C27).
 
-QUIRKS = ("missing", "floor", "noconv", "enumtype", "charlit", "littype", "optypes", "sizet")
+QUIRKS = ("missing", "floor", "noconv", "enumtype", "charlit", "littype", "optypes", "sizet")  # + "eqprec" (eqprec_shape), applied by the caller
 
 _PPCI_RANK = {"char": 30, "signed char": 30, "unsigned char": 31, "short": 40, "unsigned short": 41, "int": 50,
               "unsigned int": 51, "long": 60, "unsigned long": 61, "long long": 70, "unsigned long long": 71, "enum": 80}  # fmt: skip
@@ -539,6 +539,49 @@ def _render(e, mp):
     if pb <= pr or not mp:
         b = "(%s)" % b
     return "%s %s %s" % (a, op, b), pr
+
+
+_EQ = ("==", "!=")
+_REL = ("<", ">", "<=", ">=")
+
+
+def eqprec_shape(e):
+    """The tree a parser builds from the minimally parenthesised text of e when == and != have the same
+    precedence as < > <= >= (all left associative): model of a known finding.  `5 == 1 <= 3` -> (5 == 1) <= 3."""
+    k = e[0]
+    if k in ("lit", "enum", "sizeoft"):
+        return e
+    if k in ("un", "cast"):
+        return [k, e[1], eqprec_shape(e[2])]
+    if k == "sizeofe":
+        return [k, eqprec_shape(e[1])]
+    if k == "tern":
+        return [k] + [eqprec_shape(x) for x in e[1:]]
+    if e[1] not in _EQ + _REL:
+        return ["bin", e[1], eqprec_shape(e[2]), eqprec_shape(e[3])]
+    operands, ops = _flatten_cmp(e)
+    acc = operands[0]
+    for op, x in zip(ops, operands[1:]):
+        acc = ["bin", op, acc, x]
+    return acc
+
+
+def _flatten_cmp(e):
+    """In-order operands/operators of the comparison chain that the renderer prints without parentheses."""
+    op = e[1]
+    pr = PREC[op]
+    out_operands, out_ops = [], []
+    for side, child in ((0, e[2]), (1, e[3])):
+        inline = child[0] == "bin" and child[1] in _EQ + _REL and (PREC[child[1]] >= pr if side == 0 else PREC[child[1]] > pr)
+        if inline:
+            a, b = _flatten_cmp(child)
+            out_operands += a
+            out_ops += b
+        else:
+            out_operands.append(eqprec_shape(child))
+        if side == 0:
+            out_ops.append(op)
+    return out_operands, out_ops
 
 
 def walk(e):
